@@ -23,6 +23,7 @@ U32MAX = (1 << 32) - 1
 def gen_desc(rng, prop):
     d = {"seed": rng.getrandbits(30)}
     d["n_workers"] = rng.choice([1, 1, 2, 2, 3, 3, 4, 5, 6, 7, 8, 9]) if prop == "C08" else rng.choice([1, 2, 2, 3, 3, 3, 4, 5])
+    d["nw_none"] = rng.random() < 0.06
     subset = rng.choice([("cms",), ("hh",), ("hll",), ("cms", "hh"), ("cms", "hll"), ("hh", "hll"), ("cms", "hh", "hll")])
     mkl = rng.choice([2, 3, 4, 8, 16])
     pool = base_pool(rng, mkl)
